@@ -626,6 +626,9 @@ def c19_sockets(ctx):
     # the io_uring session backend drives the same engine from its worker loop
     for mode in ["silent", "pong", "data"]:
         scs.append(_hb_scenario("hb-%s-200-300-uring" % mode, mode, 200, 300, uring=True))
+    # a socket type that receives no application data must still read the PONGs
+    scs.append(_hb_scenario("hb-pong-200-300-uring-push", "pong", 200, 300, sock_type="PUSH", peer_type=b"PULL", uring=True))
+    scs.append(_hb_scenario("hb-pong-200-300-push", "pong", 200, 300, sock_type="PUSH", peer_type=b"PULL"))
     if thorough:
         for mode in ["silent", "pong"]:
             scs.append(_hb_scenario("hb-%s-100-700-uring" % mode, mode, 100, 700, uring=True))
